@@ -210,9 +210,51 @@ theorem nodup_map_unkey {l : List Key} (h : ∀ k ∈ l, k.1 ≠ some "") (hn : 
     have := (unkey_eq_iff (h k' (List.mem_cons_of_mem _ hk')) (h k List.mem_cons_self)).1 e
     exact hn.1 (this ▸ hk')
 
-/-! ## cache and views -/
+/-! ## lookups in store and cache after an update -/
 
-theorem cacheGet_cacheSet_self (l : List (QName × Nat)) (q : QName) (v : Nat) :
+theorem sget_sset_self (s : Store) (k : Key) (v : Str) : sget (sset s k v) k = some v := by
+  induction s with
+  | nil => simp [sset, sget]
+  | cons e rest ih =>
+    obtain ⟨k', v'⟩ := e
+    unfold sset
+    by_cases h : (k' == k) = true
+    · rw [if_pos h]; simp [sget]
+    · rw [if_neg h]; unfold sget; rw [if_neg h]; exact ih
+
+theorem sget_sset_ne (s : Store) {k k' : Key} (v : Str) (hne : k' ≠ k) :
+    sget (sset s k v) k' = sget s k' := by
+  induction s with
+  | nil => simp [sset, sget]; exact fun e => hne e.symm
+  | cons e rest ih =>
+    obtain ⟨k'', v'⟩ := e
+    unfold sset
+    by_cases h : (k'' == k) = true
+    · rw [if_pos h]
+      have : k'' = k := by simpa using h
+      subst this
+      have h1 : ¬ k'' = k' := fun e => hne e.symm
+      simp [sget, h1]
+    · rw [if_neg h]; simp only [sget, ih]
+
+theorem sget_sdel (s : Store) (k k' : Key) :
+    sget (sdel s k) k' = if k' = k then none else sget s k' := by
+  induction s with
+  | nil => simp [sdel, sget]
+  | cons e rest ih =>
+    obtain ⟨k'', v'⟩ := e
+    unfold sdel at *
+    by_cases h : k'' = k
+    · subst h
+      by_cases h2 : k' = k''
+      · subst h2; simp [ih]
+      · have h3 : ¬ k'' = k' := fun e => h2 e.symm
+        simp [ih, h2, h3, sget]
+    · by_cases h2 : k' = k
+      · subst h2; simp [h, sget, ih]
+      · simp [h, sget, ih, h2]
+
+theorem cacheGet_cacheSet_self (l : Cache) (q : Key) (v : Nat) :
     cacheGet (cacheSet l q v) q = some v := by
   induction l with
   | nil => simp [cacheSet, cacheGet]
@@ -223,7 +265,7 @@ theorem cacheGet_cacheSet_self (l : List (QName × Nat)) (q : QName) (v : Nat) :
     · rw [if_pos h]; simp [cacheGet]
     · rw [if_neg h]; unfold cacheGet; rw [if_neg h]; exact ih
 
-theorem cacheGet_cacheSet_ne (l : List (QName × Nat)) {q q' : QName} (v : Nat) (hne : q' ≠ q) :
+theorem cacheGet_cacheSet_ne (l : Cache) {q q' : Key} (v : Nat) (hne : q' ≠ q) :
     cacheGet (cacheSet l q v) q' = cacheGet l q' := by
   induction l with
   | nil => simp [cacheSet, cacheGet]; exact fun e => hne e.symm
@@ -238,7 +280,7 @@ theorem cacheGet_cacheSet_ne (l : List (QName × Nat)) {q q' : QName} (v : Nat) 
       simp [cacheGet, h1]
     · rw [if_neg h]; simp only [cacheGet, ih]
 
-theorem cacheGet_cacheDel (l : List (QName × Nat)) (q q' : QName) :
+theorem cacheGet_cacheDel (l : Cache) (q q' : Key) :
     cacheGet (cacheDel l q) q' = if q' = q then none else cacheGet l q' := by
   induction l with
   | nil => simp [cacheDel, cacheGet]
@@ -255,15 +297,41 @@ theorem cacheGet_cacheDel (l : List (QName × Nat)) (q q' : QName) :
       · subst h2; simp [h, cacheGet, ih]
       · simp [h, cacheGet, ih, h2]
 
-theorem find_append_fresh (views : List View) (v : View) (h : ∀ w ∈ views, w.id < v.id) :
-    (views ++ [v]).find? (fun w => w.id == v.id) = some v := by
-  induction views with
-  | nil => simp
-  | cons w rest ih =>
-    have hw : w.id ≠ v.id := Nat.ne_of_lt (h w List.mem_cons_self)
-    have ih := ih (fun w hw => h w (List.mem_cons_of_mem _ hw))
-    simp [hw]
-    simpa using ih
+theorem cacheGet_cacheSet (l : Cache) (q q' : Key) (v : Nat) :
+    cacheGet (cacheSet l q v) q' = if q' = q then some v else cacheGet l q' := by
+  by_cases h : q' = q
+  · subst h; rw [if_pos rfl, cacheGet_cacheSet_self]
+  · rw [if_neg h, cacheGet_cacheSet_ne _ _ h]
+
+theorem sget_sset (s : Store) (k k' : Key) (v : Str) :
+    sget (sset s k v) k' = if k' = k then some v else sget s k' := by
+  by_cases h : k' = k
+  · subst h; rw [if_pos rfl, sget_sset_self]
+  · rw [if_neg h, sget_sset_ne _ _ h]
+
+/-! ## names -/
+
+theorem etreeKey_reportedName (c : Ctx) (q : QName) : etreeKey c (reportedName c q) = etreeKey c q := by
+  obtain ⟨ns, n⟩ := q
+  unfold etreeKey reportedName
+  by_cases h : ns = ""
+  · subst h; simp
+  · simp [h]
+
+theorem resolve_pair (c : Ctx) (q : QName) : resolve c (.pair q.1 q.2) = q := rfl
+
+/-- the reported name of a key of an admissible store leads back to the key -/
+theorem etreeKey_iterName {c : Ctx} {k : Key} (h : ∀ ns, k.1 = some ns → ns ≠ "" ∧ ns ≠ c.defaultNs) :
+    etreeKey c (iterName c k) = k := by
+  obtain ⟨o, n⟩ := k
+  cases o with
+  | none => simp [iterName, etreeKey]
+  | some ns =>
+    obtain ⟨h1, h2⟩ := h ns rfl
+    have h3 : ¬ c.defaultNs = ns := fun e => h2 e.symm
+    simp [iterName, etreeKey, h1, h3]
+
+/-! ## the list of views -/
 
 theorem find_map_id (l : List View) (f : View → View) (hf : ∀ x, (f x).id = x.id) (id : Nat) :
     (l.map f).find? (fun w => w.id == id) = (l.find? (fun w => w.id == id)).map f := by
@@ -286,226 +354,1204 @@ theorem getView_id {s : State} {id : Nat} {v : View} (h : getView s id = some v)
   have := List.find?_some h
   simpa using this
 
-/-- what `getItem` returns when it returns a view -/
-theorem getItem_view {c : Ctx} {s s' : State} {a : Accessor} {vid : Nat}
-    (h : getItem c s a = (s', .view vid)) :
-    contains c s a = true ∧
-    ((cacheGet s.cache (resolve c a) = some vid ∧ s' = s) ∨
-     (cacheGet s.cache (resolve c a) = none ∧ vid = s.nextView ∧
-      s' = { s with cache := cacheSet s.cache (resolve c a) s.nextView,
-                    views := s.views ++ [{ id := s.nextView, attached := true, qname := resolve c a,
-                                           detachedValue := Option.none }],
-                    nextView := s.nextView + 1 })) := by
-  unfold getItem at h
-  by_cases hc : contains c s a = true
-  · refine ⟨hc, ?_⟩
-    simp only [hc, Bool.not_true, Bool.false_eq_true, if_false] at h
-    cases hg : cacheGet s.cache (resolve c a) with
-    | some v =>
-      rw [hg] at h
-      simp only [Prod.mk.injEq, Res.view.injEq] at h
-      left; exact ⟨by rw [h.2], h.1.symm⟩
-    | none =>
-      rw [hg] at h
-      simp only [Prod.mk.injEq, Res.view.injEq] at h
-      right; exact ⟨rfl, h.2.symm, h.1.symm⟩
-  · have : contains c s a = false := by simpa using hc
-    simp [this] at h
+theorem getView_mem {s : State} {id : Nat} {v : View} (h : getView s id = some v) : v ∈ s.views :=
+  List.mem_of_find?_eq_some h
 
-/-- the state and view after `getItem` returned a view, given freshness of `nextView` and that a cached id
-    of this qualified name is the id of an attached view of this qualified name -/
-theorem getItem_post {c : Ctx} {s s' : State} {a : Accessor} {vid : Nat}
-    (h : getItem c s a = (s', .view vid)) (hfresh : ∀ v ∈ s.views, v.id < s.nextView)
-    (hcache : ∀ id, cacheGet s.cache (resolve c a) = some id →
-      ∃ v, getView s id = some v ∧ v.attached = true ∧ v.qname = resolve c a) :
-    s'.store = s.store ∧ contains c s' a = true ∧ cacheGet s'.cache (resolve c a) = some vid ∧
-    ∃ v, getView s' vid = some v ∧ v.attached = true ∧ v.qname = resolve c a := by
-  obtain ⟨hc, hcase⟩ := getItem_view h
-  rcases hcase with ⟨hg, rfl⟩ | ⟨_, rfl, rfl⟩
-  · exact ⟨rfl, hc, hg, hcache vid hg⟩
-  · refine ⟨rfl, hc, cacheGet_cacheSet_self _ _ _,
-      ⟨{ id := s.nextView, attached := true, qname := resolve c a, detachedValue := Option.none }, ?_, rfl, rfl⟩⟩
-    exact find_append_fresh s.views
-      { id := s.nextView, attached := true, qname := resolve c a, detachedValue := Option.none } hfresh
+theorem getView_putView_ne (s : State) (w : View) {id : Nat} (h : id ≠ w.id) :
+    getView (putView s w) id = getView s id := by
+  rw [getView_putView]
+  cases hv : getView s id with
+  | none => rfl
+  | some u =>
+    have : u.id = id := getView_id hv
+    have hne : ¬ u.id = w.id := by rw [this]; exact h
+    simp [hne]
 
-theorem delItem_snd (c : Ctx) (s : State) (a : Accessor) :
-    (delItem c s a).2 = if contains c s a = true then .unit else .keyError := by
-  unfold delItem getItem
-  by_cases hc : contains c s a = true
-  · simp only [hc, Bool.not_true, Bool.false_eq_true, if_false, if_true]
-    cases cacheGet s.cache (resolve c a) <;> rfl
-  · have : contains c s a = false := by simpa using hc
-    simp [this]
+theorem getView_putView_self (s : State) (w : View) {u : View} (h : getView s w.id = some u) :
+    getView (putView s w) w.id = some w := by
+  rw [getView_putView, h]
+  have : u.id = w.id := getView_id h
+  simp [this]
 
 theorem putView_store (s : State) (w : View) : (putView s w).store = s.store := rfl
 theorem putView_cache (s : State) (w : View) : (putView s w).cache = s.cache := rfl
+theorem putView_nextView (s : State) (w : View) : (putView s w).nextView = s.nextView := rfl
 
-theorem delItem_store {c : Ctx} {s : State} {a : Accessor} (hc : contains c s a = true) :
-    (delItem c s a).1.store = sdel s.store (etreeKey c (resolve c a)) := by
-  unfold delItem getItem
-  simp only [hc, Bool.not_true, Bool.false_eq_true, if_false]
-  cases cacheGet s.cache (resolve c a) with
-  | some v =>
-    simp only
-    cases getView s v <;> rfl
+theorem putView_ids (s : State) (w : View) : (putView s w).views.map (·.id) = s.views.map (·.id) := by
+  unfold putView
+  simp only [List.map_map]
+  apply List.map_congr_left
+  intro u _
+  simp only [Function.comp]
+  by_cases h : (u.id == w.id) = true
+  · rw [if_pos h]; exact (by simpa using h : u.id = w.id).symm
+  · rw [if_neg h]
+
+/-- ids below `n` and pairwise different -/
+def idsOk (l : List View) (n : Nat) : Prop := (∀ v ∈ l, v.id < n) ∧ (l.map (·.id)).Nodup
+
+theorem idsOk_of_ids {l l' : List View} {n : Nat} (h : idsOk l n) (e : l'.map (·.id) = l.map (·.id)) :
+    idsOk l' n := by
+  refine ⟨?_, by rw [e]; exact h.2⟩
+  intro v hv
+  have : v.id ∈ l.map (·.id) := by rw [← e]; exact List.mem_map.2 ⟨v, hv, rfl⟩
+  obtain ⟨u, hu, hid⟩ := List.mem_map.1 this
+  rw [← hid]; exact h.1 u hu
+
+theorem idsOk_append {l : List View} {n : Nat} (h : idsOk l n) (v : View) (hv : v.id = n) :
+    idsOk (l ++ [v]) (n + 1) := by
+  refine ⟨?_, ?_⟩
+  · intro u hu
+    rcases List.mem_append.1 hu with hu | hu
+    · exact Nat.lt_succ_of_lt (h.1 u hu)
+    · simp at hu; subst hu; rw [hv]; exact Nat.lt_succ_self _
+  · rw [List.map_append, List.nodup_append]
+    refine ⟨h.2, by simp, ?_⟩
+    intro a ha b hb
+    simp at hb
+    obtain ⟨u, hu, rfl⟩ := List.mem_map.1 ha
+    rw [hb, hv]
+    exact Nat.ne_of_lt (h.1 u hu)
+
+theorem idsOk_filter {l : List View} {n : Nat} (h : idsOk l n) (p : View → Bool) : idsOk (l.filter p) n :=
+  ⟨fun v hv => h.1 v (List.mem_filter.1 hv).1, List.Nodup.sublist (List.Sublist.map _ List.filter_sublist) h.2⟩
+
+theorem idsOk_mono {l : List View} {n m : Nat} (h : idsOk l n) (hnm : n ≤ m) : idsOk l m :=
+  ⟨fun v hv => Nat.lt_of_lt_of_le (h.1 v hv) hnm, h.2⟩
+
+theorem find_none_of_lt {l : List View} {n id : Nat} (h : ∀ v ∈ l, v.id < n) (hid : n ≤ id) :
+    l.find? (fun w => w.id == id) = none := by
+  rw [List.find?_eq_none]
+  intro v hv
+  have := h v hv
+  simp
+  omega
+
+theorem find_append_single (l : List View) (v : View) (id : Nat) :
+    (l ++ [v]).find? (fun w => w.id == id) =
+      match l.find? (fun w => w.id == id) with
+      | some u => some u
+      | none => if v.id = id then some v else none := by
+  rw [List.find?_append]
+  cases l.find? (fun w => w.id == id) with
+  | some u => rfl
   | none =>
-    simp only
-    split <;> rfl
+    by_cases h : v.id = id <;> simp [h]
 
-/-- `delItem` when the qualified name is cached under an existing view -/
-theorem delItem_cached {c : Ctx} {s : State} {a : Accessor} {vid : Nat} {v : View}
-    (hc : contains c s a = true) (hg : cacheGet s.cache (resolve c a) = some vid)
-    (hv : getView s vid = some v) :
-    delItem c s a =
-      ({ (putView s { v with attached := false,
-                             detachedValue := some ((sget s.store (etreeKey c (resolve c a))).getD []) }) with
-           store := sdel s.store (etreeKey c (resolve c a)), cache := cacheDel s.cache (resolve c a) }, .unit) := by
-  unfold delItem getItem
-  simp only [hc, Bool.not_true, Bool.false_eq_true, if_false, hg, hv]
-  rfl
+theorem find_filter_ne (l : List View) (t id : Nat) :
+    (l.filter (fun w => w.id != t)).find? (fun w => w.id == id) =
+      if id = t then none else l.find? (fun w => w.id == id) := by
+  induction l with
+  | nil => simp
+  | cons w rest ih =>
+    by_cases h1 : w.id = t
+    · by_cases h2 : id = t
+      · simp [h1, h2, ih]
+      · have h3 : ¬ t = id := fun e => h2 e.symm
+        simp [h1, h2, h3, ih]
+    · by_cases h2 : id = t
+      · subst h2
+        simp [h1, ih]
+      · by_cases h3 : w.id = id
+        · subst h3; simp [h1, h2]
+        · simp [h1, h2, h3, ih]
 
-/-! ## the cache invariant of reachable states
+/-! ## the view invariant through the three lookup functions
 
-`c11_view_live_partial` and `c11_view_keeps_value_partial` assume that an id cached under a qualified name is
-the id of an attached view of that qualified name.  `viewsOk` is that invariant (together with freshness of
-`nextView`); it holds with an empty cache and is preserved by every operation of the model. -/
+`ViewsOk` speaks about a state only through `sget s.store`, `cacheGet s.cache`, `getView s` (and the ids of the
+views).  `LookOk` is that part as a predicate on three functions, so that every operation can be treated as a
+pointwise update. -/
 
-def viewsOk (s : State) : Prop :=
-  (∀ v ∈ s.views, v.id < s.nextView) ∧
-  ∀ q id, cacheGet s.cache q = some id → ∃ v, getView s id = some v ∧ v.attached = true ∧ v.qname = q
+structure LookOk (c : Ctx) (sg : Key → Option Str) (cg : Key → Option Nat) (gv : Nat → Option View) : Prop where
+  cached : ∀ k id, cg k = some id → ∃ v, gv id = some v ∧ v.attached = true ∧ etreeKey c v.qname = k
+  attached : ∀ id v, gv id = some v → v.attached = true → cg (etreeKey c v.qname) = some id
+  stored : ∀ k id, cg k = some id → (sg k).isSome = true
+  detached : ∀ id v, gv id = some v → v.attached = false → v.detachedValue.isSome = true
 
-theorem viewsOk_empty (st : Store) (n : Nat) : viewsOk ⟨st, [], [], n⟩ := by
-  refine ⟨by simp, ?_⟩
-  intro q id h
-  simp [cacheGet] at h
+theorem viewsOk_iff {c : Ctx} {s : State} :
+    ViewsOk c s ↔ idsOk s.views s.nextView ∧ LookOk c (sget s.store) (cacheGet s.cache) (getView s) :=
+  ⟨fun h => ⟨⟨h.fresh, h.unique⟩, ⟨h.cached, h.attached, h.stored, h.detached⟩⟩,
+   fun h => ⟨h.1.1, h.1.2, h.2.cached, h.2.attached, h.2.stored, h.2.detached⟩⟩
 
-/-- caching a new attached view -/
-theorem viewsOk_push {s : State} (h : viewsOk s) (st : Store) (q : QName) :
-    viewsOk ⟨st, cacheSet s.cache q s.nextView,
-      s.views ++ [{ id := s.nextView, attached := true, qname := q, detachedValue := Option.none }],
-      s.nextView + 1⟩ := by
-  refine ⟨?_, ?_⟩
-  · intro v hv
-    rcases List.mem_append.1 hv with hv | hv
-    · exact Nat.lt_succ_of_lt (h.1 v hv)
-    · simp at hv; subst hv; exact Nat.lt_succ_self _
-  · intro q' id hg
-    by_cases hq : q' = q
-    · subst hq
-      rw [cacheGet_cacheSet_self] at hg
-      cases hg
-      exact ⟨_, find_append_fresh s.views
-        { id := s.nextView, attached := true, qname := q', detachedValue := Option.none } h.1, rfl, rfl⟩
-    · rw [cacheGet_cacheSet_ne _ _ hq] at hg
-      obtain ⟨v, hv, hatt, hqn⟩ := h.2 q' id hg
-      refine ⟨v, ?_, hatt, hqn⟩
-      unfold getView at *
-      simp only [List.find?_append, hv, Option.some_or]
+theorem LookOk.congr {c : Ctx} {sg sg' : Key → Option Str} {cg cg' : Key → Option Nat} {gv gv' : Nat → Option View}
+    (h : LookOk c sg cg gv) (h1 : ∀ k, sg' k = sg k) (h2 : ∀ k, cg' k = cg k) (h3 : ∀ i, gv' i = gv i) :
+    LookOk c sg' cg' gv' := by
+  have e1 : sg' = sg := funext h1
+  have e2 : cg' = cg := funext h2
+  have e3 : gv' = gv := funext h3
+  rw [e1, e2, e3]; exact h
 
-/-- replacing a view that no cached id refers to any more, with a possibly smaller cache -/
-theorem viewsOk_putView {s : State} (h : viewsOk s) (w : View) (st : Store) (cache' : List (QName × Nat))
-    (hsub : ∀ q id, cacheGet cache' q = some id → cacheGet s.cache q = some id ∧ id ≠ w.id) :
-    viewsOk ⟨st, cache', (putView s w).views, s.nextView⟩ := by
-  refine ⟨?_, ?_⟩
-  · intro v hv
-    simp only [putView, List.mem_map] at hv
-    obtain ⟨u, hu, rfl⟩ := hv
-    by_cases hid : (u.id == w.id) = true
-    · rw [if_pos hid]
-      have : u.id = w.id := by simpa using hid
-      rw [← this]; exact h.1 u hu
-    · rw [if_neg hid]; exact h.1 u hu
-  · intro q id hg
-    obtain ⟨hg', hne⟩ := hsub q id hg
-    obtain ⟨v, hv, hatt, hqn⟩ := h.2 q id hg'
-    refine ⟨v, ?_, hatt, hqn⟩
-    have hvid : v.id = id := getView_id hv
-    have := getView_putView s w id
-    rw [hv] at this
-    have hne' : ¬ v.id = w.id := by rw [hvid]; exact hne
-    simp only [Option.map_some, beq_iff_eq, hne', if_false] at this
-    exact this
+/-- the store changes, cached keys stay stored -/
+theorem LookOk.store {c : Ctx} {sg sg' : Key → Option Str} {cg : Key → Option Nat} {gv : Nat → Option View}
+    (h : LookOk c sg cg gv) (hs : ∀ k, (sg k).isSome = true → (sg' k).isSome = true) : LookOk c sg' cg gv :=
+  ⟨h.cached, h.attached, fun k id hk => hs k (h.stored k id hk), h.detached⟩
 
-theorem viewsOk_getItem {s : State} (c : Ctx) (a : Accessor) (h : viewsOk s) : viewsOk (getItem c s a).1 := by
+/-- a new attached view is cached for a key that had none -/
+theorem LookOk.push {c : Ctx} {sg : Key → Option Str} {cg : Key → Option Nat} {gv : Nat → Option View}
+    (h : LookOk c sg cg gv) {k : Key} {n : Nat} {w : View} (hk : cg k = none) (hn : gv n = none)
+    (hs : (sg k).isSome = true) (hw : w.attached = true) (hq : etreeKey c w.qname = k) :
+    LookOk c sg (fun k' => if k' = k then some n else cg k') (fun i => if i = n then some w else gv i) := by
+  refine ⟨?_, ?_, ?_, ?_⟩
+  · intro k' id hc
+    by_cases hk' : k' = k
+    · subst hk'
+      simp only [if_true] at hc
+      cases hc
+      exact ⟨w, by simp, hw, hq⟩
+    · simp only [hk', if_false] at hc
+      obtain ⟨v, hv, ha, hkv⟩ := h.cached k' id hc
+      have : id ≠ n := fun e => by rw [e, hn] at hv; cases hv
+      exact ⟨v, by simp [this, hv], ha, hkv⟩
+  · intro id v hv ha
+    by_cases hid : id = n
+    · subst hid
+      simp only [if_true] at hv
+      cases hv
+      simp [hq]
+    · simp only [hid, if_false] at hv
+      have := h.attached id v hv ha
+      have hne : etreeKey c v.qname ≠ k := fun e => by rw [e, hk] at this; cases this
+      simp [hne, this]
+  · intro k' id hc
+    by_cases hk' : k' = k
+    · subst hk'; exact hs
+    · simp only [hk', if_false] at hc
+      exact h.stored k' id hc
+  · intro id v hv ha
+    by_cases hid : id = n
+    · subst hid
+      simp only [if_true] at hv
+      cases hv
+      rw [hw] at ha; cases ha
+    · simp only [hid, if_false] at hv
+      exact h.detached id v hv ha
+
+/-- the cached view of a key is detached with a value and the key leaves the cache (and possibly the store) -/
+theorem LookOk.detach {c : Ctx} {sg sg' : Key → Option Str} {cg : Key → Option Nat} {gv : Nat → Option View}
+    (h : LookOk c sg cg gv) {vid : Nat} {v : View} (x : Str) (hv : gv vid = some v) (ha : v.attached = true)
+    (hs : ∀ k, k ≠ etreeKey c v.qname → (sg k).isSome = true → (sg' k).isSome = true) :
+    LookOk c sg' (fun k' => if k' = etreeKey c v.qname then none else cg k')
+      (fun i => if i = vid then some { v with attached := false, detachedValue := some x } else gv i) := by
+  refine ⟨?_, ?_, ?_, ?_⟩
+  · intro k' id hc
+    by_cases hk' : k' = etreeKey c v.qname
+    · simp [hk'] at hc
+    · simp only [hk', if_false] at hc
+      obtain ⟨u, hu, hua, huk⟩ := h.cached k' id hc
+      have : id ≠ vid := by
+        intro e
+        rw [e, hv] at hu
+        cases hu
+        exact hk' huk.symm
+      exact ⟨u, by simp [this, hu], hua, huk⟩
+  · intro id u hu hua
+    by_cases hid : id = vid
+    · subst hid
+      simp only [if_true] at hu
+      cases hu
+      cases hua
+    · simp only [hid, if_false] at hu
+      have hc := h.attached id u hu hua
+      have hne : etreeKey c u.qname ≠ etreeKey c v.qname := by
+        intro e
+        rw [e, h.attached vid v hv ha] at hc
+        cases hc
+        exact hid rfl
+      simp [hne, hc]
+  · intro k' id hc
+    by_cases hk' : k' = etreeKey c v.qname
+    · simp [hk'] at hc
+    · simp only [hk', if_false] at hc
+      exact hs k' hk' (h.stored k' id hc)
+  · intro id u hu hua
+    by_cases hid : id = vid
+    · subst hid
+      simp only [if_true] at hu
+      cases hu
+      rfl
+    · simp only [hid, if_false] at hu
+      exact h.detached id u hu hua
+
+/-- a detached view gets another value -/
+theorem LookOk.setDetached {c : Ctx} {sg : Key → Option Str} {cg : Key → Option Nat} {gv : Nat → Option View}
+    (h : LookOk c sg cg gv) {vid : Nat} {v : View} (x : Str) (hv : gv vid = some v) (ha : v.attached = false) :
+    LookOk c sg cg (fun i => if i = vid then some { v with detachedValue := some x } else gv i) := by
+  refine ⟨?_, ?_, h.stored, ?_⟩
+  · intro k' id hc
+    obtain ⟨u, hu, hua, huk⟩ := h.cached k' id hc
+    have : id ≠ vid := by
+      intro e
+      rw [e, hv] at hu
+      cases hu
+      rw [ha] at hua; cases hua
+    exact ⟨u, by simp [this, hu], hua, huk⟩
+  · intro id u hu hua
+    by_cases hid : id = vid
+    · subst hid
+      simp only [if_true] at hu
+      cases hu
+      simp only at hua
+      rw [ha] at hua; cases hua
+    · simp only [hid, if_false] at hu
+      exact h.attached id u hu hua
+  · intro id u hu hua
+    by_cases hid : id = vid
+    · subst hid
+      simp only [if_true] at hu
+      cases hu
+      rfl
+    · simp only [hid, if_false] at hu
+      exact h.detached id u hu hua
+
+/-- an attached view moves to a key that has no cached view -/
+theorem LookOk.move {c : Ctx} {sg sg' : Key → Option Str} {cg : Key → Option Nat} {gv : Nat → Option View}
+    (h : LookOk c sg cg gv) {vid : Nat} {v : View} (nq : QName) (dv : Option Str)
+    (hv : gv vid = some v) (ha : v.attached = true) (hfree : cg (etreeKey c nq) = none)
+    (hnew : (sg' (etreeKey c nq)).isSome = true)
+    (hs : ∀ k, k ≠ etreeKey c v.qname → (sg k).isSome = true → (sg' k).isSome = true) :
+    LookOk c sg' (fun k' => if k' = etreeKey c nq then some vid else if k' = etreeKey c v.qname then none else cg k')
+      (fun i => if i = vid then some { v with qname := nq, detachedValue := dv } else gv i) := by
+  refine ⟨?_, ?_, ?_, ?_⟩
+  · intro k' id hc
+    by_cases hk1 : k' = etreeKey c nq
+    · subst hk1
+      simp only [if_true] at hc
+      cases hc
+      exact ⟨{ v with qname := nq, detachedValue := dv }, by simp, ha, rfl⟩
+    · simp only [hk1, if_false] at hc
+      by_cases hk2 : k' = etreeKey c v.qname
+      · simp [hk2] at hc
+      · simp only [hk2, if_false] at hc
+        obtain ⟨u, hu, hua, huk⟩ := h.cached k' id hc
+        have : id ≠ vid := by
+          intro e
+          rw [e, hv] at hu
+          cases hu
+          exact hk2 huk.symm
+        exact ⟨u, by simp [this, hu], hua, huk⟩
+  · intro id u hu hua
+    by_cases hid : id = vid
+    · subst hid
+      simp only [if_true] at hu
+      cases hu
+      simp
+    · simp only [hid, if_false] at hu
+      have hc := h.attached id u hu hua
+      have hne1 : etreeKey c u.qname ≠ etreeKey c v.qname := by
+        intro e
+        rw [e, h.attached vid v hv ha] at hc
+        cases hc
+        exact hid rfl
+      have hne2 : etreeKey c u.qname ≠ etreeKey c nq := by
+        intro e
+        rw [e, hfree] at hc
+        cases hc
+      simp [hne1, hne2, hc]
+  · intro k' id hc
+    by_cases hk1 : k' = etreeKey c nq
+    · subst hk1; exact hnew
+    · simp only [hk1, if_false] at hc
+      by_cases hk2 : k' = etreeKey c v.qname
+      · simp [hk2] at hc
+      · simp only [hk2, if_false] at hc
+        exact hs k' hk2 (h.stored k' id hc)
+  · intro id u hu hua
+    by_cases hid : id = vid
+    · subst hid
+      simp only [if_true] at hu
+      cases hu
+      simp only at hua
+      rw [ha] at hua; cases hua
+    · simp only [hid, if_false] at hu
+      exact h.detached id u hu hua
+
+/-! ## the operations as updates of the lookup functions -/
+
+theorem getView_putView_eq (s : State) (w : View) {u : View} (h : getView s w.id = some u) (id : Nat) :
+    getView (putView s w) id = if id = w.id then some w else getView s id := by
+  by_cases hid : id = w.id
+  · subst hid; rw [if_pos rfl]; exact getView_putView_self s w h
+  · rw [if_neg hid]; exact getView_putView_ne s w hid
+
+theorem getView_push {s : State} (hf : ∀ v ∈ s.views, v.id < s.nextView) (w : View) (hw : w.id = s.nextView)
+    (st : Store) (ca : Cache) (n : Nat) (id : Nat) :
+    getView ⟨st, ca, s.views ++ [w], n⟩ id = if id = s.nextView then some w else getView s id := by
+  unfold getView
+  simp only
+  rw [find_append_single]
+  by_cases hid : id = s.nextView
+  · subst hid
+    rw [find_none_of_lt hf (Nat.le_refl _)]
+    simp [hw]
+  · rw [if_neg hid]
+    cases hfind : List.find? (fun w => w.id == id) s.views with
+    | some u => rfl
+    | none =>
+      have : ¬ w.id = id := by rw [hw]; exact fun e => hid e.symm
+      simp [this]
+
+theorem ViewsOk.getView_lt {c : Ctx} {s : State} (h : ViewsOk c s) {id : Nat} {v : View}
+    (hv : getView s id = some v) : id < s.nextView := by
+  have := h.fresh v (getView_mem hv)
+  rwa [getView_id hv] at this
+
+theorem ViewsOk.getView_next {c : Ctx} {s : State} (h : ViewsOk c s) : getView s s.nextView = none := by
+  cases hv : getView s s.nextView with
+  | none => rfl
+  | some v => exact absurd (h.getView_lt hv) (Nat.lt_irrefl _)
+
+/-- the state after a new attached view was cached for a key without cached view -/
+theorem ViewsOk.pushState {c : Ctx} {s : State} (h : ViewsOk c s) {k : Key} (q : QName) (st : Store)
+    (hk : cacheGet s.cache k = none) (hq : etreeKey c q = k) (hs : (sget st k).isSome = true)
+    (hst : ∀ k', (sget s.store k').isSome = true → (sget st k').isSome = true) :
+    ViewsOk c ⟨st, cacheSet s.cache k s.nextView,
+      s.views ++ [{ id := s.nextView, attached := true, qname := q, detachedValue := Option.none }], s.nextView + 1⟩ := by
+  rw [viewsOk_iff] at *
+  refine ⟨idsOk_append h.1 _ rfl, ?_⟩
+  have h2 := (h.2.store hst).push (w := { id := s.nextView, attached := true, qname := q, detachedValue := Option.none })
+    hk (ViewsOk.getView_next (viewsOk_iff.2 h)) hs rfl hq
+  exact h2.congr (fun _ => rfl) (fun k' => cacheGet_cacheSet _ _ _ _) (fun i => getView_push h.1.1 _ rfl _ _ _ _)
+
+theorem ViewsOk.storeState {c : Ctx} {s : State} (h : ViewsOk c s) (st : Store)
+    (hst : ∀ k', (sget s.store k').isSome = true → (sget st k').isSome = true) :
+    ViewsOk c { s with store := st } := by
+  rw [viewsOk_iff] at *
+  exact ⟨h.1, h.2.store hst⟩
+
+theorem sset_isSome (s : Store) (k : Key) (x : Str) (k' : Key) (h : (sget s k').isSome = true) :
+    (sget (sset s k x) k').isSome = true := by
+  rw [sget_sset]
+  by_cases hk : k' = k
+  · rw [if_pos hk]; rfl
+  · rw [if_neg hk]; exact h
+
+/-! ### `getItem` -/
+
+theorem getItem_hit {c : Ctx} {s : State} {a : Accessor} {vid : Nat} (hc : contains c s a = true)
+    (hg : cacheGet s.cache (etreeKey c (resolve c a)) = some vid) : getItem c s a = (s, .view vid) := by
   unfold getItem
-  by_cases hc : contains c s a = true
-  · simp only [hc, Bool.not_true, Bool.false_eq_true, if_false]
-    cases cacheGet s.cache (resolve c a) with
-    | some v => exact h
-    | none => exact viewsOk_push h s.store (resolve c a)
-  · have : contains c s a = false := by simpa using hc
-    simp only [this, Bool.not_false, if_true]
-    exact h
+  simp only [hc, Bool.not_true, Bool.false_eq_true, if_false, hg]
 
-theorem viewsOk_setItem {s : State} (c : Ctx) (a : Accessor) (x : Str) (h : viewsOk s) :
-    viewsOk (setItem c s a x) :=
-  viewsOk_push h _ (resolve c a)
+theorem getItem_miss {c : Ctx} {s : State} {a : Accessor} (hc : contains c s a = true)
+    (hg : cacheGet s.cache (etreeKey c (resolve c a)) = none) :
+    getItem c s a =
+      (⟨s.store, cacheSet s.cache (etreeKey c (resolve c a)) s.nextView,
+        s.views ++ [{ id := s.nextView, attached := true, qname := reportedName c (resolve c a),
+                      detachedValue := Option.none }], s.nextView + 1⟩, .view s.nextView) := by
+  unfold getItem
+  simp only [hc, Bool.not_true, Bool.false_eq_true, if_false, hg]
 
-theorem delItem_eq {c : Ctx} {s s₁ : State} {a : Accessor} {vid : Nat} {v : View}
-    (hc : contains c s a = true) (hgi : getItem c s a = (s₁, .view vid)) (hv : getView s₁ vid = some v) :
+theorem getItem_keyError {c : Ctx} {s : State} {a : Accessor} (hc : contains c s a = false) :
+    getItem c s a = (s, .keyError) := by
+  unfold getItem
+  simp [hc]
+
+theorem ViewsOk.getItem {c : Ctx} {s : State} (h : ViewsOk c s) (a : Accessor) : ViewsOk c (getItem c s a).1 := by
+  cases hc : contains c s a with
+  | false => rw [getItem_keyError hc]; exact h
+  | true =>
+    cases hg : cacheGet s.cache (etreeKey c (resolve c a)) with
+    | some vid => rw [getItem_hit hc hg]; exact h
+    | none =>
+      rw [getItem_miss hc hg]
+      exact h.pushState _ _ hg (etreeKey_reportedName c _) hc (fun _ h => h)
+
+/-- what a successful lookup gives in a state that satisfies the invariant -/
+theorem getItem_spec {c : Ctx} {s : State} (h : ViewsOk c s) {a : Accessor} (hc : contains c s a = true) :
+    ∃ s' vid v, getItem c s a = (s', .view vid) ∧ ViewsOk c s' ∧ s'.store = s.store ∧
+      cacheGet s'.cache (etreeKey c (resolve c a)) = some vid ∧
+      getView s' vid = some v ∧ v.attached = true ∧ etreeKey c v.qname = etreeKey c (resolve c a) ∧
+      (∀ id, id ≠ vid → getView s' id = getView s id) ∧
+      (∀ k, k ≠ etreeKey c (resolve c a) → cacheGet s'.cache k = cacheGet s.cache k) ∧
+      (getView s vid = none → vid = s.nextView ∧ cacheGet s.cache (etreeKey c (resolve c a)) = none) ∧
+      (∀ u, getView s vid = some u → s' = s) := by
+  have hinv := h.getItem a
+  cases hg : cacheGet s.cache (etreeKey c (resolve c a)) with
+  | some vid =>
+    obtain ⟨v, hv, ha, hk⟩ := h.cached _ _ hg
+    rw [getItem_hit hc hg] at hinv
+    exact ⟨s, vid, v, getItem_hit hc hg, hinv, rfl, hg, hv, ha, hk, fun _ _ => rfl, fun _ _ => rfl,
+      fun hn => (by rw [hn] at hv; cases hv), fun _ _ => rfl⟩
+  | none =>
+    rw [getItem_miss hc hg] at hinv
+    refine ⟨_, s.nextView, (⟨s.nextView, true, reportedName c (resolve c a), Option.none⟩ : View), getItem_miss hc hg, hinv, rfl, cacheGet_cacheSet_self _ _ _, ?_, rfl,
+      etreeKey_reportedName c _, ?_, ?_, fun _ => ⟨rfl, rfl⟩, ?_⟩
+    · rw [getView_push h.fresh _ rfl]; simp
+    · intro id hid
+      rw [getView_push h.fresh _ rfl, if_neg hid]
+    · intro k hk
+      exact cacheGet_cacheSet_ne _ _ hk
+    · intro u hu
+      rw [h.getView_next] at hu; cases hu
+
+/-! ### `setItem` -/
+
+theorem setItem_hit {c : Ctx} {s : State} {a : Accessor} {vid : Nat} (x : Str)
+    (hg : cacheGet s.cache (etreeKey c (resolve c a)) = some vid) :
+    setItem c s a x = { s with store := sset s.store (etreeKey c (resolve c a)) x } := by
+  unfold setItem
+  simp only [hg]
+
+theorem setItem_miss {c : Ctx} {s : State} {a : Accessor} (x : Str)
+    (hg : cacheGet s.cache (etreeKey c (resolve c a)) = none) :
+    setItem c s a x =
+      ⟨sset s.store (etreeKey c (resolve c a)) x, cacheSet s.cache (etreeKey c (resolve c a)) s.nextView,
+        s.views ++ [{ id := s.nextView, attached := true, qname := reportedName c (resolve c a),
+                      detachedValue := Option.none }], s.nextView + 1⟩ := by
+  unfold setItem
+  simp only [hg]
+
+theorem setItem_store (c : Ctx) (s : State) (a : Accessor) (x : Str) :
+    (setItem c s a x).store = sset s.store (etreeKey c (resolve c a)) x := by
+  cases hg : cacheGet s.cache (etreeKey c (resolve c a)) with
+  | some vid => rw [setItem_hit x hg]
+  | none => rw [setItem_miss x hg]
+
+theorem ViewsOk.setItem {c : Ctx} {s : State} (h : ViewsOk c s) (a : Accessor) (x : Str) :
+    ViewsOk c (setItem c s a x) := by
+  cases hg : cacheGet s.cache (etreeKey c (resolve c a)) with
+  | some vid =>
+    rw [setItem_hit x hg]
+    exact h.storeState _ (sset_isSome _ _ _)
+  | none =>
+    rw [setItem_miss x hg]
+    exact h.pushState _ _ hg (etreeKey_reportedName c _) (by rw [sget_sset_self]; rfl) (sset_isSome _ _ _)
+
+theorem ViewsOk.update {c : Ctx} (items : List (Accessor × Str)) {s : State} (h : ViewsOk c s) :
+    ViewsOk c (update c s items) := by
+  induction items generalizing s with
+  | nil => exact h
+  | cons e rest ih => exact ih (h.setItem e.1 e.2)
+
+/-! ### `Attribute.value`, detaching, `delItem` -/
+
+theorem viewValue_attached {c : Ctx} {s : State} {vid : Nat} {v : View} {x : Str} (hv : getView s vid = some v)
+    (ha : v.attached = true) (hx : sget s.store (etreeKey c v.qname) = some x) : viewValue c s vid = .value x := by
+  simp only [viewValue, hv, ha, if_true, hx]
+
+theorem viewValue_detached {c : Ctx} {s : State} {vid : Nat} {v : View} {x : Str} (hv : getView s vid = some v)
+    (ha : v.attached = false) (hx : v.detachedValue = some x) : viewValue c s vid = .value x := by
+  simp only [viewValue, hv, ha, Bool.false_eq_true, if_false, hx]
+
+/-- in a state that satisfies the invariant the value of an attached view is the stored value of its key -/
+theorem ViewsOk.viewValue {c : Ctx} {s : State} (h : ViewsOk c s) {vid : Nat} {v : View}
+    (hv : getView s vid = some v) (ha : v.attached = true) :
+    ∃ x, sget s.store (etreeKey c v.qname) = some x ∧ viewValue c s vid = .value x := by
+  have hs := h.stored _ _ (h.attached vid v hv ha)
+  cases hx : sget s.store (etreeKey c v.qname) with
+  | none => rw [hx] at hs; cases hs
+  | some x => exact ⟨x, rfl, viewValue_attached hv ha hx⟩
+
+theorem detachView_eq {c : Ctx} {s : State} {vid : Nat} {v : View} {x : Str} (hv : getView s vid = some v)
+    (hx : viewValue c s vid = .value x) :
+    detachView c s vid = some (putView s { v with attached := false, detachedValue := some x }) := by
+  unfold detachView
+  simp only [hv, hx]
+
+/-- `delItem` when the key is cached under an attached view whose value can be read (no invariant needed) -/
+theorem delItem_eq {c : Ctx} {s : State} {a : Accessor} {vid : Nat} {v : View} {x : Str}
+    (hc : contains c s a = true) (hg : cacheGet s.cache (etreeKey c (resolve c a)) = some vid)
+    (hv : getView s vid = some v) (hx : viewValue c s vid = .value x) :
     delItem c s a =
-      ({ (putView s₁ { v with attached := false,
-                              detachedValue := some ((sget s₁.store (etreeKey c (resolve c a))).getD []) }) with
-           store := sdel s₁.store (etreeKey c (resolve c a)), cache := cacheDel s₁.cache (resolve c a) }, .unit) := by
+      ({ (putView s { v with attached := false, detachedValue := some x }) with
+           store := sdel s.store (etreeKey c (resolve c a)), cache := cacheDel s.cache (etreeKey c (resolve c a)) },
+       .unit) := by
+  have hc' : contains c s (.pair (resolve c a).1 (resolve c a).2) = true := hc
+  have hgi : getItem c s (.pair (resolve c a).1 (resolve c a).2) = (s, .view vid) := getItem_hit hc' hg
   unfold delItem
-  simp only [hc, Bool.not_true, Bool.false_eq_true, if_false]
-  rw [hgi]
-  simp only [hv]
+  simp only [hc, Bool.not_true, Bool.false_eq_true, if_false, hgi, detachView_eq hv hx]
   rfl
 
-theorem getItem_fst_snd {c : Ctx} {s : State} {a : Accessor} (hc : contains c s a = true) :
-    ∃ vid, getItem c s a = ((getItem c s a).1, .view vid) := by
-  unfold getItem
-  simp only [hc, Bool.not_true, Bool.false_eq_true, if_false]
-  cases cacheGet s.cache (resolve c a) with
-  | some v => exact ⟨v, rfl⟩
-  | none => exact ⟨s.nextView, rfl⟩
+theorem delItem_keyError {c : Ctx} {s : State} {a : Accessor} (hc : contains c s a = false) :
+    delItem c s a = (s, .keyError) := by
+  unfold delItem
+  simp [hc]
 
-theorem viewsOk_delItem {s : State} (c : Ctx) (a : Accessor) (h : viewsOk s) : viewsOk (delItem c s a).1 := by
-  by_cases hc : contains c s a = true
-  · obtain ⟨vid, hgi⟩ := getItem_fst_snd (c := c) (s := s) (a := a) hc
-    have h1 : viewsOk (getItem c s a).1 := viewsOk_getItem c a h
-    generalize (getItem c s a).1 = s₁ at hgi h1
-    obtain ⟨_, _, hg, v, hv, hatt, hq⟩ := getItem_post hgi h.1 (h.2 (resolve c a))
-    rw [delItem_eq hc hgi hv]
-    have hvid : v.id = vid := getView_id hv
-    refine viewsOk_putView h1 _ _ _ ?_
-    intro q id hgd
-    rw [cacheGet_cacheDel] at hgd
-    by_cases hqq : q = resolve c a
-    · rw [if_pos hqq] at hgd; cases hgd
-    · rw [if_neg hqq] at hgd
-      refine ⟨hgd, ?_⟩
-      show id ≠ v.id
-      intro hid
-      obtain ⟨u, hu, _, huq⟩ := h1.2 q id hgd
-      rw [hid, hvid, hv] at hu
-      cases hu
-      exact hqq (huq.symm.trans hq)
-  · have : contains c s a = false := by simpa using hc
-    unfold delItem
-    simp only [this, Bool.not_false, if_true]
-    exact h
+/-- `delItem` in a state that satisfies the invariant: the view of the key (looked up first) is detached with
+    the stored value, the key leaves store and cache -/
+theorem delItem_spec {c : Ctx} {s : State} (h : ViewsOk c s) {a : Accessor} (hc : contains c s a = true) :
+    ∃ s₁ vid v x, getItem c s (.pair (resolve c a).1 (resolve c a).2) = (s₁, .view vid) ∧ ViewsOk c s₁ ∧
+      s₁.store = s.store ∧ cacheGet s₁.cache (etreeKey c (resolve c a)) = some vid ∧
+      getView s₁ vid = some v ∧ v.attached = true ∧ etreeKey c v.qname = etreeKey c (resolve c a) ∧
+      sget s.store (etreeKey c (resolve c a)) = some x ∧
+      (∀ id, id ≠ vid → getView s₁ id = getView s id) ∧
+      (∀ k, k ≠ etreeKey c (resolve c a) → cacheGet s₁.cache k = cacheGet s.cache k) ∧
+      (getView s vid = none → vid = s.nextView ∧ cacheGet s.cache (etreeKey c (resolve c a)) = none) ∧
+      (∀ u, getView s vid = some u → s₁ = s) ∧
+      delItem c s a =
+        ({ (putView s₁ { v with attached := false, detachedValue := some x }) with
+             store := sdel s.store (etreeKey c (resolve c a)),
+             cache := cacheDel s₁.cache (etreeKey c (resolve c a)) }, .unit) := by
+  have hc' : contains c s (.pair (resolve c a).1 (resolve c a).2) = true := hc
+  obtain ⟨s₁, vid, v, hgi, h1, hst, hg, hv, ha, hk, hfv, hfc, hnone, hsome⟩ := getItem_spec h hc'
+  have hk' : etreeKey c v.qname = etreeKey c (resolve c a) := hk
+  obtain ⟨x, hx, hval⟩ := h1.viewValue hv ha
+  rw [hk', hst] at hx
+  refine ⟨s₁, vid, v, x, hgi, h1, hst, hg, hv, ha, hk', hx, hfv, hfc, hnone, hsome, ?_⟩
+  unfold delItem
+  simp only [hc, Bool.not_true, Bool.false_eq_true, if_false, hgi, detachView_eq hv hval]
+  rw [← hst]
+  rfl
 
-theorem viewsOk_viewSetValue {s : State} (c : Ctx) (vid : Nat) (x : Str) (h : viewsOk s) :
-    viewsOk (viewSetValue c s vid x) := by
+theorem ViewsOk.delItem {c : Ctx} {s : State} (h : ViewsOk c s) (a : Accessor) : ViewsOk c (delItem c s a).1 := by
+  cases hc : contains c s a with
+  | false => rw [delItem_keyError hc]; exact h
+  | true =>
+    obtain ⟨s₁, vid, v, x, _, h1, hst, hg, hv, ha, hk, hx, _, _, _, _, hd⟩ := delItem_spec h hc
+    rw [hd, viewsOk_iff]
+    rw [viewsOk_iff] at h1
+    refine ⟨idsOk_of_ids h1.1 (putView_ids _ _), ?_⟩
+    have h2 := h1.2.detach (sg' := sget (sdel s.store (etreeKey c (resolve c a)))) x hv ha (by
+      intro k hne hs
+      rw [sget_sdel, if_neg (by rw [← hk]; exact hne), ← hst]
+      exact hs)
+    refine h2.congr (fun _ => rfl) (fun k => ?_) (fun i => ?_)
+    · rw [hk]; exact cacheGet_cacheDel _ _ _
+    · have hvid : v.id = vid := getView_id hv
+      subst hvid
+      exact getView_putView_eq s₁ { v with attached := false, detachedValue := some x } (u := v) hv i
+
+/-! ### `Attribute.value = x` -/
+
+theorem viewSetValue_attached {c : Ctx} {s : State} {vid : Nat} {v : View} (x : Str) (hv : getView s vid = some v)
+    (ha : v.attached = true) :
+    viewSetValue c s vid x = { s with store := sset s.store (etreeKey c v.qname) x } := by
   unfold viewSetValue
+  simp only [hv, ha, if_true]
+
+theorem viewSetValue_detached {c : Ctx} {s : State} {vid : Nat} {v : View} (x : Str) (hv : getView s vid = some v)
+    (ha : v.attached = false) :
+    viewSetValue c s vid x = putView s { v with detachedValue := some x } := by
+  unfold viewSetValue
+  simp only [hv, ha, Bool.false_eq_true, if_false]
+
+theorem viewSetValue_none {c : Ctx} {s : State} {vid : Nat} (x : Str) (hv : getView s vid = none) :
+    viewSetValue c s vid x = s := by
+  unfold viewSetValue
+  simp only [hv]
+
+theorem ViewsOk.viewSetValue {c : Ctx} {s : State} (h : ViewsOk c s) (vid : Nat) (x : Str) :
+    ViewsOk c (viewSetValue c s vid x) := by
   cases hv : getView s vid with
-  | none => exact h
+  | none => rw [viewSetValue_none x hv]; exact h
   | some v =>
-    simp only
-    by_cases hatt : v.attached = true
-    · rw [if_pos hatt]; exact h
-    · rw [if_neg hatt]
+    cases ha : v.attached with
+    | true =>
+      rw [viewSetValue_attached x hv ha]
+      exact h.storeState _ (sset_isSome _ _ _)
+    | false =>
+      rw [viewSetValue_detached x hv ha, viewsOk_iff]
+      rw [viewsOk_iff] at h
+      refine ⟨idsOk_of_ids h.1 (putView_ids _ _), ?_⟩
+      refine (h.2.setDetached x hv ha).congr (fun _ => rfl) (fun _ => rfl) (fun i => ?_)
       have hvid : v.id = vid := getView_id hv
-      refine viewsOk_putView h _ _ _ ?_
-      intro q id hg
-      refine ⟨hg, ?_⟩
-      show id ≠ v.id
-      intro hid
-      obtain ⟨u, hu, huatt, _⟩ := h.2 q id hg
-      rw [hid, hvid, hv] at hu
-      cases hu
-      exact hatt huatt
+      subst hvid
+      exact getView_putView_eq s { v with detachedValue := some x } (u := v) hv i
+
+/-! ### `renameView` -/
+
+theorem renameView_none {c : Ctx} {s : State} {vid : Nat} (nq : QName) (hv : getView s vid = none) :
+    renameView c s vid nq = (s, .keyError) := by
+  unfold renameView
+  simp only [hv]
+
+theorem renameView_same {c : Ctx} {s : State} {vid : Nat} {v : View} (hv : getView s vid = some v) :
+    renameView c s vid v.qname = (s, .unit) := by
+  unfold renameView
+  simp only [hv, beq_self_eq_true, if_true]
+
+theorem renameView_detached {c : Ctx} {s : State} {vid : Nat} {v : View} {nq : QName} (hv : getView s vid = some v)
+    (hq : v.qname ≠ nq) (ha : v.attached = false) : renameView c s vid nq = (s, .keyError) := by
+  have hq' : (v.qname == nq) = false := by simpa using hq
+  unfold renameView
+  simp only [hv, hq', ha, Bool.false_eq_true, if_false, Bool.not_false, if_true]
+
+theorem renameView_alias {c : Ctx} {s : State} {vid : Nat} {v : View} {nq : QName} (hv : getView s vid = some v)
+    (ha : v.attached = true) (hk : etreeKey c nq = etreeKey c v.qname) : renameView c s vid nq = (s, .unit) := by
+  by_cases hq : v.qname = nq
+  · subst hq; exact renameView_same hv
+  · have hq' : (v.qname == nq) = false := by simpa using hq
+    unfold renameView
+    simp only [hv, hq', ha, Bool.false_eq_true, if_false, Bool.not_true, hk, beq_self_eq_true, if_true]
+
+/-- the part of `_set_new_key` after the assignment: rename the object, delete the old name -/
+theorem renameTail {c : Ctx} {s1 : State} {vid : Nat} {v : View} {nq : QName} {x y : Str}
+    (hv : getView s1 vid = some v) (ha : v.attached = true)
+    (hne : etreeKey c v.qname ≠ etreeKey c nq)
+    (hold : sget s1.store (etreeKey c v.qname) = some y)
+    (hnew : sget s1.store (etreeKey c nq) = some x)
+    (hcv : cacheGet s1.cache (etreeKey c v.qname) = some vid) :
+    ∃ s3, delItem c (putView s1 { v with qname := nq }) (.pair v.qname.1 v.qname.2) = (s3, .unit) ∧
+      s3.store = sdel s1.store (etreeKey c v.qname) ∧ s3.cache = cacheDel s1.cache (etreeKey c v.qname) ∧
+      s3.nextView = s1.nextView ∧ s3.views.map (·.id) = s1.views.map (·.id) ∧
+      (∀ id, getView s3 id =
+        if id = vid then some { v with qname := nq, attached := false, detachedValue := some x }
+        else getView s1 id) := by
+  have hvid : v.id = vid := getView_id hv
+  subst hvid
+  have hv2 : getView (putView s1 { v with qname := nq }) v.id = some { v with qname := nq } :=
+    getView_putView_self s1 { v with qname := nq } (u := v) hv
+  have hval : viewValue c (putView s1 { v with qname := nq }) v.id = .value x :=
+    viewValue_attached hv2 ha hnew
+  have hc : contains c (putView s1 { v with qname := nq }) (.pair v.qname.1 v.qname.2) = true := by
+    show (sget s1.store (etreeKey c v.qname)).isSome = true
+    rw [hold]; rfl
+  have hd := delItem_eq (a := .pair v.qname.1 v.qname.2) hc hcv hv2 hval
+  refine ⟨_, hd, rfl, rfl, rfl, ?_, ?_⟩
+  · show (putView (putView s1 { v with qname := nq })
+        { v with qname := nq, attached := false, detachedValue := some x }).views.map (·.id) = _
+    rw [putView_ids, putView_ids]
+  · intro id
+    show getView (putView (putView s1 { v with qname := nq })
+        { v with qname := nq, attached := false, detachedValue := some x }) id = _
+    rw [getView_putView_eq _ { v with qname := nq, attached := false, detachedValue := some x } hv2]
+    by_cases hid : id = v.id
+    · simp [hid]
+    · simp only [hid, if_false]
+      exact getView_putView_ne s1 { v with qname := nq } hid
+
+/-- `renameView` to a different attribute in a state that satisfies the invariant, as an update of the lookups -/
+theorem renameView_spec {c : Ctx} {s : State} (h : ViewsOk c s) {vid : Nat} {v : View} {nq : QName}
+    (hv : getView s vid = some v) (ha : v.attached = true) (hk : etreeKey c nq ≠ etreeKey c v.qname) :
+    ∃ s' x, renameView c s vid nq = (s', .unit) ∧ sget s.store (etreeKey c v.qname) = some x ∧
+      s'.store = sdel (sset s.store (etreeKey c nq) x) (etreeKey c v.qname) ∧
+      (∀ k, cacheGet s'.cache k =
+        if k = etreeKey c nq then some vid else if k = etreeKey c v.qname then none else cacheGet s.cache k) ∧
+      (∀ id, getView s' id =
+        if id = vid then some { v with qname := nq, detachedValue := some x }
+        else match cacheGet s.cache (etreeKey c nq) with
+          | some rid =>
+            if id = rid then
+              (getView s rid).map (fun r => { r with attached := false, detachedValue := sget s.store (etreeKey c nq) })
+            else getView s id
+          | Option.none => getView s id) ∧
+      idsOk s'.views s'.nextView := by
+  have hq : v.qname ≠ nq := fun e => hk (by rw [e])
+  have hq' : (v.qname == nq) = false := by simpa using hq
+  have hk' : (etreeKey c nq == etreeKey c v.qname) = false := by simpa using hk
+  have hne : etreeKey c v.qname ≠ etreeKey c nq := fun e => hk e.symm
+  have hcv := h.attached vid v hv ha
+  obtain ⟨x, hx, hval⟩ := h.viewValue hv ha
+  have hvid : v.id = vid := getView_id hv
+  subst hvid
+  have hlt : v.id < s.nextView := h.getView_lt hv
+  have ha' : (!v.attached) = false := by simp [ha]
+  cases hg : cacheGet s.cache (etreeKey c nq) with
+  | none =>
+    -- no attribute object is cached for the new name: `__setitem__` creates one, it is dropped at the end
+    have h1 := setItem_miss (c := c) (s := s) (a := .pair nq.1 nq.2) x hg
+    have hv1 : getView (setItem c s (.pair nq.1 nq.2) x) v.id = some v := by
+      rw [h1, getView_push h.fresh _ rfl, if_neg (Nat.ne_of_lt hlt)]
+      exact hv
+    have hold : sget (setItem c s (.pair nq.1 nq.2) x).store (etreeKey c v.qname) = some x := by
+      rw [setItem_store]
+      show sget (sset s.store (etreeKey c nq) x) _ = _
+      rw [sget_sset_ne _ _ hne]; exact hx
+    have hnew : sget (setItem c s (.pair nq.1 nq.2) x).store (etreeKey c nq) = some x := by
+      rw [setItem_store]
+      exact sget_sset_self _ _ _
+    have hcv1 : cacheGet (setItem c s (.pair nq.1 nq.2) x).cache (etreeKey c v.qname) = some v.id := by
+      rw [h1]
+      show cacheGet (cacheSet s.cache (etreeKey c nq) s.nextView) _ = _
+      rw [cacheGet_cacheSet_ne _ _ hne]; exact hcv
+    obtain ⟨s3, hd, hst3, hca3, hnv3, hids3, hgv3⟩ := renameTail hv1 ha hne hold hnew hcv1
+    have hgv3' := hgv3 v.id
+    rw [if_pos rfl] at hgv3'
+    refine ⟨⟨s3.store, cacheSet s3.cache (etreeKey c nq) v.id, List.filter (fun w => w.id != s.nextView)
+      (putView s3 { v with qname := nq, attached := true, detachedValue := some x }).views, s3.nextView⟩,
+      x, ?_, hx, ?_, ?_, ?_, ?_⟩
+    · unfold renameView
+      simp only [hv, hq', ha', hk', hg, hval, hv1, hd, hgv3', Bool.false_eq_true, if_false]
+      rfl
+    · show s3.store = _
+      rw [hst3, setItem_store]; rfl
+    · intro k
+      show cacheGet (cacheSet s3.cache (etreeKey c nq) v.id) k = _
+      rw [cacheGet_cacheSet, hca3, cacheGet_cacheDel, h1]
+      show (if k = etreeKey c nq then some v.id else if k = etreeKey c v.qname then none
+        else cacheGet (cacheSet s.cache (etreeKey c nq) s.nextView) k) = _
+      by_cases hk1 : k = etreeKey c nq
+      · simp [hk1]
+      · simp only [hk1, if_false]
+        rw [cacheGet_cacheSet_ne _ _ hk1]
+    · intro id
+      show List.find? (fun w => w.id == id) (List.filter (fun w => w.id != s.nextView)
+        (putView s3 { v with qname := nq, attached := true, detachedValue := some x }).views) = _
+      rw [find_filter_ne]
+      have hp := getView_putView_eq s3 { v with qname := nq, attached := true, detachedValue := some x }
+        (u := { v with qname := nq, attached := false, detachedValue := some x }) hgv3' id
+      unfold getView at hp
+      rw [hp]
+      by_cases hid : id = v.id
+      · subst hid
+        have : v = { v with attached := true } := by cases v; simp at ha; simp [ha]
+        simp [Nat.ne_of_lt hlt]
+        cases v; simp at ha; simp [ha]
+      · simp only [hid, if_false]
+        have := hgv3 id
+        rw [if_neg hid, h1, getView_push h.fresh _ rfl] at this
+        by_cases hid2 : id = s.nextView
+        · subst hid2
+          simp [h.getView_next]
+        · simp only [hid2, if_false] at this ⊢
+          exact this
+    · show idsOk (List.filter (fun w => w.id != s.nextView)
+        (putView s3 { v with qname := nq, attached := true, detachedValue := some x }).views) s3.nextView
+      apply idsOk_filter
+      apply idsOk_of_ids _ (putView_ids _ _)
+      rw [hnv3]
+      apply idsOk_of_ids _ hids3
+      rw [h1]
+      exact idsOk_append ⟨h.fresh, h.unique⟩ _ rfl
+  | some rid =>
+    -- the attribute of the new name is superseded: its cached object is detached with its value
+    obtain ⟨r, hr, hra, hrk⟩ := h.cached _ _ hg
+    obtain ⟨y, hy, hvaly⟩ := h.viewValue hr hra
+    rw [hrk] at hy
+    have hrid : r.id = rid := getView_id hr
+    subst hrid
+    have hne_id : v.id ≠ r.id := by
+      intro e
+      rw [e, hr] at hv
+      cases hv
+      exact hk hrk.symm
+    have hd0 := detachView_eq hr hvaly
+    have hv0 : getView (putView s { r with attached := false, detachedValue := some y }) v.id = some v := by
+      rw [getView_putView_ne s { r with attached := false, detachedValue := some y } hne_id]; exact hv
+    have hval0 : viewValue c (putView s { r with attached := false, detachedValue := some y }) v.id = .value x :=
+      viewValue_attached hv0 ha hx
+    have hg0 : cacheGet (putView s { r with attached := false, detachedValue := some y }).cache
+        (etreeKey c (resolve c (.pair nq.1 nq.2))) = some r.id := hg
+    have h1 := setItem_hit (c := c) (a := .pair nq.1 nq.2) x hg0
+    have hv1 : getView (setItem c (putView s { r with attached := false, detachedValue := some y })
+        (.pair nq.1 nq.2) x) v.id = some v := by
+      rw [h1]; exact hv0
+    have hold : sget (setItem c (putView s { r with attached := false, detachedValue := some y })
+        (.pair nq.1 nq.2) x).store (etreeKey c v.qname) = some x := by
+      rw [setItem_store]
+      show sget (sset s.store (etreeKey c nq) x) _ = _
+      rw [sget_sset_ne _ _ hne]; exact hx
+    have hnew : sget (setItem c (putView s { r with attached := false, detachedValue := some y })
+        (.pair nq.1 nq.2) x).store (etreeKey c nq) = some x := by
+      rw [setItem_store]
+      exact sget_sset_self _ _ _
+    have hcv1 : cacheGet (setItem c (putView s { r with attached := false, detachedValue := some y })
+        (.pair nq.1 nq.2) x).cache (etreeKey c v.qname) = some v.id := by
+      rw [h1]; exact hcv
+    obtain ⟨s3, hd, hst3, hca3, hnv3, hids3, hgv3⟩ := renameTail hv1 ha hne hold hnew hcv1
+    have hgv3' := hgv3 v.id
+    rw [if_pos rfl] at hgv3'
+    refine ⟨⟨s3.store, cacheSet s3.cache (etreeKey c nq) v.id,
+      (putView s3 { v with qname := nq, attached := true, detachedValue := some x }).views, s3.nextView⟩,
+      x, ?_, hx, ?_, ?_, ?_, ?_⟩
+    · unfold renameView
+      simp only [hv, hq', ha', hk', hg, hd0, hval0, hv1, hd, hgv3', putView_cache, Bool.false_eq_true, if_false]
+      rfl
+    · show s3.store = _
+      rw [hst3, setItem_store]; rfl
+    · intro k
+      show cacheGet (cacheSet s3.cache (etreeKey c nq) v.id) k = _
+      rw [cacheGet_cacheSet, hca3, cacheGet_cacheDel, h1]
+      rfl
+    · intro id
+      have hp := getView_putView_eq s3 { v with qname := nq, attached := true, detachedValue := some x }
+        (u := { v with qname := nq, attached := false, detachedValue := some x }) hgv3' id
+      show getView (putView s3 { v with qname := nq, attached := true, detachedValue := some x }) id = _
+      rw [hp]
+      by_cases hid : id = v.id
+      · subst hid
+        cases v; simp at ha; simp [ha]
+      · simp only [hid, if_false]
+        have := hgv3 id
+        rw [if_neg hid, h1] at this
+        rw [this]
+        show getView (putView s { r with attached := false, detachedValue := some y }) id = _
+        rw [getView_putView_eq s { r with attached := false, detachedValue := some y } (u := r) hr, hr, hy]
+        rfl
+    · show idsOk (putView s3 { v with qname := nq, attached := true, detachedValue := some x }).views s3.nextView
+      apply idsOk_of_ids _ (putView_ids _ _)
+      rw [hnv3]
+      apply idsOk_of_ids _ hids3
+      rw [h1]
+      exact idsOk_of_ids ⟨h.fresh, h.unique⟩ (putView_ids _ _)
+
+theorem ViewsOk.renameView {c : Ctx} {s : State} (h : ViewsOk c s) (vid : Nat) (nq : QName) :
+    ViewsOk c (renameView c s vid nq).1 := by
+  cases hv : getView s vid with
+  | none => rw [renameView_none nq hv]; exact h
+  | some v =>
+    by_cases hq : v.qname = nq
+    · subst hq; rw [renameView_same hv]; exact h
+    · cases ha : v.attached with
+      | false => rw [renameView_detached hv hq ha]; exact h
+      | true =>
+        by_cases hk : etreeKey c nq = etreeKey c v.qname
+        · rw [renameView_alias hv ha hk]; exact h
+        · obtain ⟨s', x, hr, hx, hst, hca, hgv, hids⟩ := renameView_spec h hv ha hk
+          rw [hr, viewsOk_iff]
+          refine ⟨hids, ?_⟩
+          rw [viewsOk_iff] at h
+          have hnew : (sget s'.store (etreeKey c nq)).isSome = true := by
+            rw [hst, sget_sdel, if_neg hk, sget_sset_self]; rfl
+          have hs : ∀ k, k ≠ etreeKey c v.qname → (sget s.store k).isSome = true → (sget s'.store k).isSome = true := by
+            intro k hne hk'
+            rw [hst, sget_sdel, if_neg hne]
+            exact sset_isSome _ _ _ _ hk'
+          cases hg : cacheGet s.cache (etreeKey c nq) with
+          | none =>
+            refine (h.2.move nq (some x) hv ha hg hnew hs).congr (fun _ => rfl) hca (fun i => ?_)
+            rw [hgv i, hg]
+          | some rid =>
+            obtain ⟨r, hr', hra, hrk⟩ := h.2.cached _ _ hg
+            have hne_id : vid ≠ rid := by
+              intro e
+              rw [e, hr'] at hv
+              cases hv
+              exact hk hrk.symm
+            have hsome := h.2.stored _ _ hg
+            cases hy : sget s.store (etreeKey c nq) with
+            | none => rw [hy] at hsome; cases hsome
+            | some y =>
+              have h1 := h.2.detach (sg' := sget s.store) y hr' hra (fun _ _ hs => hs)
+              have hv1 : (fun i => if i = rid then some { r with attached := false, detachedValue := some y }
+                  else getView s i) vid = some v := by
+                simp only [hne_id, if_false]; exact hv
+              have h2 := h1.move nq (some x) hv1 ha (by simp [hrk]) hnew hs
+              refine h2.congr (fun _ => rfl) (fun k => ?_) (fun i => ?_)
+              · rw [hca k, hrk]
+                by_cases hk1 : k = etreeKey c nq
+                · simp [hk1]
+                · simp [hk1]
+              · rw [hgv i, hg]
+                by_cases hi : i = vid
+                · simp [hi]
+                · simp only [hi, if_false]
+                  by_cases hi2 : i = rid
+                  · simp [hi2, hr', hy]
+                  · simp [hi2]
+
+/-! ### the mixin methods -/
+
+theorem ViewsOk.pop {c : Ctx} {s : State} (h : ViewsOk c s) (a : Accessor) : ViewsOk c (pop c s a).1 := by
+  have h1 := h.getItem a
+  unfold Attrs.pop
+  cases hr : (Attrs.getItem c s a).2 with
+  | view vid =>
+    have : Attrs.getItem c s a = ((Attrs.getItem c s a).1, .view vid) := by rw [← hr]
+    rw [this]
+    exact h1.delItem a
+  | _ =>
+    rw [show Attrs.getItem c s a = ((Attrs.getItem c s a).1, (Attrs.getItem c s a).2) from rfl, hr]
+    exact h1
+
+theorem ViewsOk.setDefault {c : Ctx} {s : State} (h : ViewsOk c s) (a : Accessor) (d : Str) :
+    ViewsOk c (setDefault c s a d).1 := by
+  have h1 := h.getItem a
+  unfold Attrs.setDefault
+  cases hr : (Attrs.getItem c s a).2 with
+  | view vid =>
+    have : Attrs.getItem c s a = ((Attrs.getItem c s a).1, .view vid) := by rw [← hr]
+    rw [this]
+    exact h1
+  | _ =>
+    rw [show Attrs.getItem c s a = ((Attrs.getItem c s a).1, (Attrs.getItem c s a).2) from rfl, hr]
+    exact h.setItem a d
+
+theorem ViewsOk.popItem {c : Ctx} {s : State} (h : ViewsOk c s) : ViewsOk c (popItem c s).1 := by
+  unfold Attrs.popItem
+  cases iter c s with
+  | nil => exact h
+  | cons key _ => exact h.pop _
+
+theorem ViewsOk.clearLoop {c : Ctx} (n : Nat) {s : State} (h : ViewsOk c s) : ViewsOk c (clearLoop c n s) := by
+  induction n generalizing s with
+  | zero => exact h
+  | succ n ih =>
+    unfold Attrs.clearLoop
+    have h1 := h.popItem
+    generalize Attrs.popItem c s = r at h1
+    obtain ⟨s1, k, res⟩ := r
+    cases k with
+    | none => exact h
+    | some q =>
+      cases res <;> first | exact h | exact ih h1
+
+theorem ViewsOk.clear {c : Ctx} {s : State} (h : ViewsOk c s) : ViewsOk c (clear c s) := h.clearLoop _
+
+theorem viewsOk_empty (c : Ctx) (st : Store) (n : Nat) : ViewsOk c ⟨st, [], [], n⟩ := by
+  refine ⟨by simp, by simp, ?_, ?_, ?_, ?_⟩
+  · intro k id h; simp [cacheGet] at h
+  · intro id v h; simp [getView] at h
+  · intro k id h; simp [cacheGet] at h
+  · intro id v h; simp [getView] at h
+
+/-! ## `storeOk` along the operations -/
+
+theorem getItem_store (c : Ctx) (s : State) (a : Accessor) : (getItem c s a).1.store = s.store := by
+  unfold getItem
+  cases contains c s a with
+  | false => rfl
+  | true =>
+    simp only [Bool.not_true, Bool.false_eq_true, if_false]
+    cases cacheGet s.cache (etreeKey c (resolve c a)) <;> rfl
+
+theorem detachView_store {c : Ctx} {s s' : State} {vid : Nat} (h : detachView c s vid = some s') :
+    s'.store = s.store := by
+  unfold detachView at h
+  cases hv : getView s vid with
+  | none => simp [hv] at h
+  | some v =>
+    simp only [hv] at h
+    cases hx : viewValue c s vid <;> simp [hx] at h
+    rw [← h]; rfl
+
+/-- the store after `delItem`: unchanged when it raises, else without the key -/
+theorem delItem_store (c : Ctx) (s : State) (a : Accessor) :
+    ((delItem c s a).2 = .keyError ∧ (delItem c s a).1.store = s.store) ∨
+    ((delItem c s a).2 = .unit ∧ (delItem c s a).1.store = sdel s.store (etreeKey c (resolve c a))) := by
+  unfold delItem
+  cases hc : contains c s a with
+  | false => left; simp
+  | true =>
+    simp only [Bool.not_true, Bool.false_eq_true, if_false]
+    have hst := getItem_store c s (.pair (resolve c a).1 (resolve c a).2)
+    generalize getItem c s (.pair (resolve c a).1 (resolve c a).2) = r at hst
+    obtain ⟨s1, res⟩ := r
+    cases res <;> try (left; exact ⟨rfl, hst⟩)
+    rename_i vid
+    simp only
+    split
+    · rename_i s2 hd
+      right
+      refine ⟨rfl, ?_⟩
+      show sdel s2.store _ = _
+      rw [detachView_store hd]
+      exact congrArg (fun st => sdel st _) hst
+    · left; exact ⟨rfl, hst⟩
+
+theorem storeOk_delItem {c : Ctx} {s : State} (hok : storeOk c s.store) (a : Accessor) :
+    storeOk c (delItem c s a).1.store := by
+  rcases delItem_store c s a with ⟨_, h⟩ | ⟨_, h⟩
+  · rw [h]; exact hok
+  · rw [h]; exact storeOk_sdel hok _
+
+theorem viewSetValue_store (c : Ctx) (s : State) (vid : Nat) (x : Str) :
+    (viewSetValue c s vid x).store = s.store ∨
+    ∃ v, getView s vid = some v ∧ v.attached = true ∧ (viewSetValue c s vid x).store = sset s.store (etreeKey c v.qname) x := by
+  cases hv : getView s vid with
+  | none => left; rw [viewSetValue_none x hv]
+  | some v =>
+    cases ha : v.attached with
+    | true => right; exact ⟨v, rfl, ha, by rw [viewSetValue_attached x hv ha]⟩
+    | false => left; rw [viewSetValue_detached x hv ha]; rfl
+
+theorem storeOk_viewSetValue {c : Ctx} {s : State} (hok : storeOk c s.store) (vid : Nat) (x : Str) :
+    storeOk c (viewSetValue c s vid x).store := by
+  rcases viewSetValue_store c s vid x with h | ⟨v, _, _, h⟩
+  · rw [h]; exact hok
+  · rw [h]; exact storeOk_sset hok _ _
+
+theorem storeOk_setItem {c : Ctx} {s : State} (hok : storeOk c s.store) (a : Accessor) (x : Str) :
+    storeOk c (setItem c s a x).store := by
+  rw [setItem_store]; exact storeOk_sset hok _ _
+
+theorem Inv.renameView {c : Ctx} {s : State} (h : Inv c s) (vid : Nat) (nq : QName) :
+    Inv c (renameView c s vid nq).1 := by
+  refine ⟨?_, h.2.renameView vid nq⟩
+  cases hv : getView s vid with
+  | none => rw [renameView_none nq hv]; exact h.1
+  | some v =>
+    by_cases hq : v.qname = nq
+    · subst hq; rw [renameView_same hv]; exact h.1
+    · cases ha : v.attached with
+      | false => rw [renameView_detached hv hq ha]; exact h.1
+      | true =>
+        by_cases hk : etreeKey c nq = etreeKey c v.qname
+        · rw [renameView_alias hv ha hk]; exact h.1
+        · obtain ⟨s', x, hr, _, hst, _⟩ := renameView_spec h.2 hv ha hk
+          rw [hr]
+          show storeOk c s'.store
+          rw [hst]
+          exact storeOk_sdel (storeOk_sset h.1 _ _) _
+
+theorem Inv.getItem {c : Ctx} {s : State} (h : Inv c s) (a : Accessor) : Inv c (getItem c s a).1 :=
+  ⟨by rw [getItem_store]; exact h.1, h.2.getItem a⟩
+
+theorem Inv.setItem {c : Ctx} {s : State} (h : Inv c s) (a : Accessor) (x : Str) : Inv c (setItem c s a x) :=
+  ⟨storeOk_setItem h.1 a x, h.2.setItem a x⟩
+
+theorem Inv.delItem {c : Ctx} {s : State} (h : Inv c s) (a : Accessor) : Inv c (delItem c s a).1 :=
+  ⟨storeOk_delItem h.1 a, h.2.delItem a⟩
+
+theorem Inv.viewSetValue {c : Ctx} {s : State} (h : Inv c s) (vid : Nat) (x : Str) :
+    Inv c (viewSetValue c s vid x) :=
+  ⟨storeOk_viewSetValue h.1 vid x, h.2.viewSetValue vid x⟩
+
+theorem Inv.update {c : Ctx} (items : List (Accessor × Str)) {s : State} (h : Inv c s) : Inv c (update c s items) := by
+  induction items generalizing s with
+  | nil => exact h
+  | cons e rest ih => exact ih (h.setItem e.1 e.2)
+
+theorem Inv.pop {c : Ctx} {s : State} (h : Inv c s) (a : Accessor) : Inv c (pop c s a).1 := by
+  have h1 := h.getItem a
+  unfold Attrs.pop
+  cases hr : (Attrs.getItem c s a).2 with
+  | view vid =>
+    have : Attrs.getItem c s a = ((Attrs.getItem c s a).1, .view vid) := by rw [← hr]
+    rw [this]
+    exact h1.delItem a
+  | _ =>
+    rw [show Attrs.getItem c s a = ((Attrs.getItem c s a).1, (Attrs.getItem c s a).2) from rfl, hr]
+    exact h1
+
+/-! ## dictionaries -/
+
+theorem sget_etreeKey {c : Ctx} {st : Store} (hok : storeOk c st) (q : QName) :
+    sget st (etreeKey c q) = dictGet (absStore st) (canon c q) := by
+  have h := sget_eq st (etreeKey c q) (storeOk_fst_ne hok) (etreeKey_fst_ne _ _)
+  rwa [unkey_etreeKey] at h
+
+theorem etreeKey_eq_iff (c : Ctx) (q₁ q₂ : QName) : etreeKey c q₁ = etreeKey c q₂ ↔ canon c q₁ = canon c q₂ :=
+  ⟨fun h => by rw [← unkey_etreeKey, ← unkey_etreeKey, h], fun h => by rw [etreeKey_eq, etreeKey_eq, h]⟩
+
+theorem dictDel_dictSet_comm (d : Dict) {n o : QName} (x : Str) (hne : n ≠ o) :
+    dictDel (dictSet d n x) o = dictSet (dictDel d o) n x := by
+  induction d with
+  | nil => simp [dictSet, dictDel, hne]
+  | cons e rest ih =>
+    obtain ⟨q, v⟩ := e
+    unfold dictDel at *
+    by_cases h1 : q = n
+    · subst h1
+      simp [dictSet, hne]
+    · by_cases h2 : q = o
+      · subst h2
+        simp [dictSet, h1, ih]
+      · simp [dictSet, h1, h2, ih]
+
+theorem sget_of_mem {st : Store} (hn : (st.map (·.1)).Nodup) {k : Key} {v : Str} (h : (k, v) ∈ st) :
+    sget st k = some v := by
+  induction st with
+  | nil => cases h
+  | cons e rest ih =>
+    obtain ⟨k', v'⟩ := e
+    simp only [List.map_cons, List.nodup_cons] at hn
+    rcases List.mem_cons.1 h with h | h
+    · cases h; simp [sget]
+    · have hne : k' ≠ k := fun e => hn.1 (e ▸ List.mem_map.2 ⟨(k, v), h, rfl⟩)
+      simp [sget, hne, ih hn.2 h]
+
+theorem mem_of_sget {st : Store} {k : Key} {v : Str} (h : sget st k = some v) : (k, v) ∈ st := by
+  induction st with
+  | nil => cases h
+  | cons e rest ih =>
+    obtain ⟨k', v'⟩ := e
+    unfold sget at h
+    by_cases hk : (k' == k) = true
+    · rw [if_pos hk] at h
+      cases h
+      have : k' = k := by simpa using hk
+      subst this
+      exact List.mem_cons_self
+    · rw [if_neg hk] at h
+      exact List.mem_cons_of_mem _ (ih h)
+
+theorem iter_eq (c : Ctx) (s : State) : iter c s = (reportedDict c s.store).map (·.1) := by
+  unfold iter reportedDict
+  rw [List.map_map]
+  rfl
+
+/-- an entry of the dictionary of reported names: the name is iterated and looking it up gives the value -/
+theorem mem_reportedDict_iff {c : Ctx} {st : Store} (hok : storeOk c st) (q : QName) (v : Str) :
+    (q, v) ∈ reportedDict c st ↔
+      q ∈ (reportedDict c st).map (·.1) ∧ sget st (etreeKey c q) = some v := by
+  unfold reportedDict
+  constructor
+  · intro h
+    obtain ⟨⟨k, v'⟩, he, heq⟩ := List.mem_map.1 h
+    simp only [Prod.mk.injEq] at heq
+    obtain ⟨rfl, rfl⟩ := heq
+    refine ⟨List.mem_map.2 ⟨(iterName c k, v'), h, rfl⟩, ?_⟩
+    rw [etreeKey_iterName (hok.1 _ he)]
+    exact sget_of_mem hok.2 he
+  · rintro ⟨h1, h2⟩
+    obtain ⟨⟨q', v'⟩, he, rfl⟩ := List.mem_map.1 h1
+    obtain ⟨⟨k, v''⟩, hk, heq⟩ := List.mem_map.1 he
+    simp only [Prod.mk.injEq] at heq
+    obtain ⟨rfl, rfl⟩ := heq
+    simp only at h2
+    rw [etreeKey_iterName (hok.1 _ hk), sget_of_mem hok.2 hk] at h2
+    cases h2
+    exact he
+
+theorem nodup_map_of_leftInv {α β : Type} {f : α → β} {g : β → α} {l : List α} (h : ∀ a ∈ l, g (f a) = a)
+    (hn : l.Nodup) : (l.map f).Nodup := by
+  induction l with
+  | nil => simp
+  | cons a rest ih =>
+    simp only [List.nodup_cons] at hn
+    simp only [List.map_cons, List.nodup_cons]
+    refine ⟨?_, ih (fun b hb => h b (List.mem_cons_of_mem _ hb)) hn.2⟩
+    intro hmem
+    obtain ⟨b, hb, e⟩ := List.mem_map.1 hmem
+    have : b = a := by
+      rw [← h b (List.mem_cons_of_mem _ hb), e, h a List.mem_cons_self]
+    exact hn.1 (this ▸ hb)
+
+theorem reportedDict_keys_nodup {c : Ctx} {st : Store} (hok : storeOk c st) :
+    ((reportedDict c st).map (·.1)).Nodup := by
+  have : (reportedDict c st).map (·.1) = (st.map (·.1)).map (iterName c) := by
+    unfold reportedDict
+    rw [List.map_map, List.map_map]
+    rfl
+  rw [this]
+  refine nodup_map_of_leftInv (g := etreeKey c) ?_ hok.2
+  intro k hk
+  obtain ⟨e, he, rfl⟩ := List.mem_map.1 hk
+  exact etreeKey_iterName (hok.1 e he)
+
+/-- pigeonhole: a duplicate-free list inside a list that is not longer contains all of it -/
+theorem subset_of_nodup_of_length_le {α : Type} {l₁ l₂ : List α} (hn : l₁.Nodup) (hsub : l₁ ⊆ l₂)
+    (hlen : l₂.length ≤ l₁.length) : l₂ ⊆ l₁ := by
+  intro x hx
+  apply Classical.byContradiction
+  intro hnot
+  have hn' : (x :: l₁).Nodup := List.nodup_cons.2 ⟨hnot, hn⟩
+  have hsub' : (x :: l₁) ⊆ l₂ := by
+    intro y hy
+    rcases List.mem_cons.1 hy with rfl | hy
+    · exact hx
+    · exact hsub hy
+  have := List.Nodup.length_le_of_subset hn' hsub'
+  simp at this
+  omega
+
+/-! ## fixtures of the non-vacuity examples in `Props/C11.lean`
+
+An element `<e xmlns="urn:u" xmlns:q="urn:q" a="1" q:b="2"/>`: the default namespace is the element's. -/
+
+/-- the example element context -/
+def exCtx : Ctx := { nodeNs := "urn:u", defaultNs := "urn:u" }
+/-- its store -/
+def exStore : Store := [((none, "a"), ['1']), ((some "urn:q", "b"), ['2'])]
+/-- the freshly wrapped element -/
+def exInit : State := ⟨exStore, [], [], 0⟩
+/-- after `A["a"]` and `A["{urn:q}b"]`: two attribute objects are held -/
+def exHeld : State := (getItem exCtx (getItem exCtx exInit (.local_ "a")).1 (.clark "urn:q" "b")).1
+/-- after `del A[("", "a")]` (the other spelling of `a`) -/
+def exRemoved : State := (delItem exCtx exHeld (.pair "" "a")).1
+
+theorem exStore_ok : storeOk exCtx exStore := by
+  refine ⟨?_, by decide⟩
+  intro e he ns hns
+  simp only [exStore, List.mem_cons, List.not_mem_nil, or_false] at he
+  rcases he with rfl | rfl
+  · cases hns
+  · cases hns; exact ⟨by decide, by decide⟩
+
+theorem ex_reachable : Reachable exCtx exInit ∧ Reachable exCtx exHeld ∧ Reachable exCtx exRemoved := by
+  have h0 : Reachable exCtx exInit := .init _ _ exStore_ok
+  have h1 : Reachable exCtx exHeld := .getItem _ (.getItem _ h0)
+  exact ⟨h0, h1, .delItem _ h1⟩
 
 end Delb.Attrs
